@@ -159,6 +159,8 @@ pub struct Child {
     // streams
     pub script: Vec<Step>,
     pub omega: bool,
+    /// the stream invokes its own waker in the poll in which it returns None
+    pub wake_on_end: bool,
     pub cursor: usize,
     pub fed: bool,
     pub last_answer: Ans,
@@ -465,6 +467,7 @@ impl World {
             items: 0,
             script: Vec::new(),
             omega: false,
+            wake_on_end: false,
             cursor: 0,
             fed: false,
             last_answer: Ans::None,
@@ -1181,6 +1184,10 @@ impl Stream for ScriptStream {
                     Poll::Pending
                 }
                 SAct::End => {
+                    if w(|w| w.children[id as usize].wake_on_end) {
+                        w(|w| w.logf(|| format!("    source {} wakes itself while ending", id)));
+                        invoke_child_waker(cx.waker());
+                    }
                     w(|w| w.logf(|| format!("    source {} polled -> None", id)));
                     Poll::Ready(None)
                 }
